@@ -1376,7 +1376,7 @@ func (e *Exec) makeMap(t types.Type) Val {
 	e.assume(Implies(e.guard(), Eq(RType(r), tagOf(t))))
 	e.assume(Implies(e.guard(), And(
 		Eq(e.mapDom(st, r, k, v), ConstArr(ArraySort(k, SBool), False)),
-		Eq(e.mapVal(st, r, k, v), ConstArr(ArraySort(k, v), zeroOfSort(v))))))
+		Eq(e.mapVal(st, r, k, v), ConstArr(ArraySort(k, v), zeroOf(t.Underlying().(*types.Map).Elem()))))))
 	return r
 }
 
@@ -1929,10 +1929,25 @@ func (e *Exec) finish() {
 	}
 	if e.C.Flags["readonly"] {
 		e.checkReadonly(nil)
-	} else if e.C.Flags["readonly_model"] {
-		// the frame restricted to the components of the authorization-model types (package openfgav1): "the model given
-		// to the function is not written", without claiming anything about the function's own object graph
-		e.checkReadonly(func(n string) bool { return strings.Contains(n, "openfgav1") })
+	} else if e.C.Flags["readonly_model"] || e.C.Flags["readonly_receiver"] {
+		// readonly_model: the frame restricted to the components of the authorization-model types (package openfgav1): "the
+		// model given to the function is not written", without claiming anything about the function's own object graph.
+		// readonly_receiver: the frame restricted to the fields of the receiver's struct type: "the method keeps no state in
+		// its receiver" (C13: the result of a call does not depend on earlier calls on the same builder/validator).
+		recvPrefix := ""
+		if e.C.Flags["readonly_receiver"] && e.Fn.Signature.Recv() != nil {
+			rt := e.Fn.Signature.Recv().Type()
+			if p, ok := rt.(*types.Pointer); ok {
+				rt = p.Elem()
+			}
+			if _, ok := rt.Underlying().(*types.Struct); ok {
+				recvPrefix = "F$" + shortKey(rt) + "."
+			}
+		}
+		model := e.C.Flags["readonly_model"]
+		e.checkReadonly(func(n string) bool {
+			return model && strings.Contains(n, "openfgav1") || recvPrefix != "" && strings.HasPrefix(n, recvPrefix)
+		})
 	}
 	for i, cv := range e.C.Covers {
 		t := e.evalContractBool(cv.Expr, env, "cover")
